@@ -660,6 +660,15 @@ class Canon:
                 return f_not(_atom(f"{sb}<{sa}", "<", sb, sa))
             if op == ">=":
                 return f_not(_atom(f"{sa}<{sb}", "<", sa, sb))
+            if op in ("in", "notin") and b[0] == "const" and isinstance(b[1], tuple) \
+                    and 1 <= len(b[1]) <= 3 and all(isinstance(x, int) and not isinstance(x, bool)
+                                                    for x in b[1]):
+                eqs = []
+                for x in b[1]:
+                    u, v = sorted([sa, repr(x)])
+                    eqs.append(_atom(f"{u}=={v}", "==", u, v))
+                r = f_or(eqs)
+                return r if op == "in" else f_not(r)
             if op == "in":
                 return ("atom", f"{sa} in {sb}")
             if op == "notin":
@@ -793,6 +802,23 @@ def mono_pairs(atoms):
     return out
 
 
+def deep_atoms(f, acc=None):
+    """all plain atoms, including those inside the bodies of exists sub-formulas"""
+    if acc is None:
+        acc = set()
+    k = f[0]
+    if k == "atom":
+        acc.add(f[1])
+    elif k == "exists":
+        deep_atoms(f[2], acc)
+    elif k == "not":
+        deep_atoms(f[1], acc)
+    elif k in ("and", "or"):
+        for x in f[1]:
+            deep_atoms(x, acc)
+    return acc
+
+
 def f_atoms(f, acc=None):
     """top-level atoms: plain atoms and canonical keys of exists sub-formulas"""
     if acc is None:
@@ -907,6 +933,29 @@ def f_equiv(f, g):
     return f_key(f) == f_key(g)
 
 
+_COVER = {}
+
+
+def cover_clauses(atoms):
+    """(e, [e1..en]): EXISTS x.B forces one of EXISTS x.B1 .. EXISTS x.Bn (same binder) whenever
+    B => B1 | .. | Bn  (an existential distributes over a disjunction: the witness of B is a
+    witness of some Bi)"""
+    ex = [a for a in atoms if a in EXISTS_BODY]
+    out = []
+    for e in ex:
+        others = [o for o in ex if o != e and EXISTS_BODY[o][0] == EXISTS_BODY[e][0]]
+        if len(others) < 2:
+            continue            # a single consequent is the monotonicity rule
+        key = (e, tuple(others))
+        if key not in _COVER:
+            _COVER[key] = None
+            _COVER[key] = bool(f_implies(EXISTS_BODY[e][1],
+                                         f_or([EXISTS_BODY[o][1] for o in others])))
+        if _COVER[key]:
+            out.append((e, others))
+    return out
+
+
 def f_implies(f, g):
     """f => g for all valuations of the union of atoms (atoms independent)"""
     f, g = f_norm(f), f_norm(g)
@@ -915,11 +964,14 @@ def f_implies(f, g):
         return None
     pairs = theory_pairs(atoms)
     mono = mono_pairs(atoms)
+    cover = cover_clauses(atoms)
     for bits in itertools.product((False, True), repeat=len(atoms)):
         v = dict(zip(atoms, bits))
         if pairs and not consistent(v, pairs):
             continue
         if mono and any(v[a] and not v[b] for a, b in mono):
+            continue
+        if cover and any(v[e] and not any(v[o] for o in os_) for e, os_ in cover):
             continue
         if f_eval(f, v) and not f_eval(g, v):
             return False
